@@ -350,6 +350,11 @@ int AsmContext::assemble()
           token2[ptr] = 0;
           tokens_unget_char(this, ch);
           macros_strip(token2);
+
+          // Like .define: a blank at the end separates the value from the
+          // token that follows the name where it is used (ptr < TOKENLEN - 1).
+          strcat(token2, " ");
+
           macros_append(this, token, token2, 0);
           NV_TRACE("NVT equ %d\n", nv_depth);
         }
